@@ -6858,7 +6858,10 @@ def update_ref(
                     raise ValueError(
                         f"Ref {ref_name.decode('utf-8')} does not match expected value"
                     )
-            r.refs.remove_if_equals(ref_name, old_sha, message=message_bytes)
+            if not r.refs.remove_if_equals(ref_name, old_sha, message=message_bytes):
+                raise ValueError(
+                    f"Ref {ref_name.decode('utf-8')} does not match expected value"
+                )
         else:
             # Update or create ref
             if not r.refs.set_if_equals(
